@@ -31,6 +31,7 @@ type Field struct {
 	Block2    string `json:"block2,omitempty"`     // an additional /* ... */ comment on the same line, before the trailing comment
 	TagSep    string `json:"tag_sep,omitempty"`    // what separates the items of the existing tag literal instead of one blank ("  ", "\t"), and whether blanks pad the literal inside the back-quotes (a leading "^")
 	RawTag    string `json:"raw_tag,omitempty"`    // literal text between the back-quotes instead of Tags (a tag that is not in key:"value" form)
+	EmptyTag  bool   `json:"empty_tag,omitempty"`  // the literal is the empty raw string ``
 }
 
 type Struct struct {
@@ -75,7 +76,9 @@ func (f Field) render() string {
 	}
 	b.WriteString(f.Type)
 	if !f.NoTag {
-		if f.RawTag != "" {
+		if f.EmptyTag {
+			b.WriteString(" ``")
+		} else if f.RawTag != "" {
 			b.WriteString(" `" + f.RawTag + "`")
 		} else if f.Interp {
 			b.WriteString(" " + fmt.Sprintf("%q", renderTags(f.Tags)))
@@ -371,6 +374,67 @@ var UnexpectedKinds = []string{
 	"cr-inside-raw-tag",          // a lone carriage return inside the back-quoted tag literal (the scanner drops it from the literal's value: the AST's end offset is one byte short)
 	"doc-and-trailing-tags",      // one field annotated twice: in the comment line above it and in its trailing comment (seeded C07n read both and made two overlapping areas)
 	"nested-struct-both-levels",  // a field of anonymous struct type with its own tag and annotation, annotated inner fields, annotated siblings after it, at the end of the file
+	"literal-comment-matrix",     // one struct with a field for every pair (kind of existing literal) x (kind of @tag comment): 8 x 9 fields
+	"literal-comment-pair",       // one such pair, drawn
+	"many-inject-items",          // fields whose @tag comment carries 31, 32, 33, 63, 64, 65, 127, 128, 129, 255, 256 and 257 items (seeded C07x kept a 64-bit mask of consumed items)
+	"many-literal-items",         // fields whose EXISTING literal carries that many items, a few of them overridden
+}
+
+// litKinds x comKinds: what a field's existing tag literal and its @tag comment can each look like (seeded C19x crashed
+// only where a literal without any key:"value" item met a comment without any well-formed item).
+const nLitKinds, nComKinds = 8, 9
+
+func lcField(name string, lit, com int) Field {
+	f := Field{Names: name, Type: "string"}
+	switch lit % nLitKinds {
+	case 0:
+		f.Tags = []KV{{"json", "a,omitempty"}}
+	case 1:
+		f.NoTag = true
+	case 2:
+		f.RawTag = "legacy tag text"
+	case 3:
+		f.EmptyTag = true
+	case 4:
+		f.RawTag = "-"
+	case 5:
+		f.Tags = []KV{{"json", ""}}
+	case 6:
+		f.Tags = []KV{{"名字", "x"}}
+	case 7:
+		f.Tags, f.Interp = []KV{{"json", "name"}}, true
+	}
+	switch com % nComKinds {
+	case 0:
+		f.Inject = []KV{{"valid", "required"}}
+	case 1:
+		f.Mention, f.Trailing = true, "legacy"
+	case 2:
+		f.InjectRaw = " required, no quotes here"
+	case 3:
+		f.InjectRaw, f.Trailing = " ", "todo"
+	case 4:
+		f.InjectRaw = " json:\"a"
+	case 5:
+		f.Inject, f.Block = []KV{{"valid", "required"}, {"json", "b"}}, true
+	case 6:
+		f.Doc = "说明 @tag valid:\"required\""
+	case 7:
+		f.Doc = "see the @tag documentation"
+	case 8:
+		f.Inject = []KV{{"json", "-"}, {"xml", "n"}}
+	}
+	return f
+}
+
+var itemCounts = []int{31, 32, 33, 63, 64, 65, 127, 128, 129, 255, 256, 257}
+
+func manyItems(n int, prefix string) []KV {
+	l := make([]KV, 0, n)
+	for i := 1; i <= n; i++ {
+		l = append(l, KV{fmt.Sprintf("%s%d", prefix, i), fmt.Sprintf("v%d", i)})
+	}
+	return l
 }
 
 // GenUnexpected draws a valid Go file that contains the given shape, after at
@@ -496,6 +560,32 @@ func GenUnexpected(r *detsim.Rand, pkg, kind string) *GoFile {
 		after.Inject = []KV{{"json", "-"}}
 		s.Fields = append(s.Fields, after)
 		g.Methods, g.Local = false, false
+	case "literal-comment-matrix":
+		m := Struct{Name: "Matrix"}
+		for l := 0; l < nLitKinds; l++ {
+			for c := 0; c < nComKinds; c++ {
+				m.Fields = append(m.Fields, lcField(fmt.Sprintf("L%dC%d", l, c), l, c))
+			}
+		}
+		g.Structs = append(g.Structs, m)
+	case "literal-comment-pair":
+		s.Fields = append(s.Fields, lcField("Pair", r.Intn(nLitKinds), r.Intn(nComKinds)))
+	case "many-inject-items":
+		m := Struct{Name: "Many"}
+		for _, n := range itemCounts {
+			f := Field{Names: fmt.Sprintf("F%d", n), Type: "string", Tags: []KV{{"json", "f"}, {"k2", "old"}}}
+			f.Inject = manyItems(n, "k")
+			m.Fields = append(m.Fields, f)
+		}
+		g.Structs = append(g.Structs, m)
+	case "many-literal-items":
+		m := Struct{Name: "ManyLit"}
+		for _, n := range itemCounts {
+			f := Field{Names: fmt.Sprintf("F%d", n), Type: "string", Tags: manyItems(n, "k")}
+			f.Inject = []KV{{fmt.Sprintf("k%d", n), "last"}, {"k1", "first"}, {"extra", "x"}}
+			m.Fields = append(m.Fields, f)
+		}
+		g.Structs = append(g.Structs, m)
 	case "anonymous-struct-field":
 		f := genField(r, len(s.Fields), false)
 		f.Type = "struct {\n\t\tID int64 `json:\"id\"` // 编号 @tag valid:\"required\"\n\t}"
